@@ -9,12 +9,10 @@ use crate::scenario::{Scenario, Stats, T2Spec, Tier, Violation};
 use crate::t2;
 use crate::world::split_lines;
 use std::collections::BTreeMap;
-use std::sync::Mutex;
 
 /// (level, title, path, line1, col1, endcol1)
 type Item = (String, String, String, usize, usize, usize);
 
-static LEVEL_OF_KIND: Mutex<BTreeMap<String, String>> = Mutex::new(BTreeMap::new());
 
 pub fn all_modes() -> Vec<Vec<String>> {
     let mut v = Vec::new();
@@ -54,6 +52,7 @@ pub fn generate(r: &mut Rng, tier: Tier) -> Scenario {
         history: vec![],
         t2: Some(T2Spec { modes: all_modes(), plan: vec![], profile: "dev".into(), force_color: true }),
         content_faults: vec![],
+        expected_levels: std::collections::BTreeMap::new(),
         note: format!("gen={g:?} cut={c:?}"),
     }
 }
@@ -259,6 +258,7 @@ pub fn check(scn: &Scenario, stats: &mut Stats) -> Vec<Violation> {
         return out;
     };
     let base_path = format!("<ROOT>/{}", scn.world.base);
+    let mut table: BTreeMap<String, String> = scn.expected_levels.clone();
     for &e in &scn.entropy {
         let run = |flags: &[String], color: bool| {
             t2::run_rva(&t2::RvaCall { sandbox: &sb, base: &scn.world.base, flags, entropy: e, plan: &spec.plan, profile: &spec.profile, force_color: color, cpu_seconds: 10 })
@@ -290,13 +290,15 @@ pub fn check(scn: &Scenario, stats: &mut Stats) -> Vec<Violation> {
                 out.push(viol("empty-title", "empty-title".into(), format!("entropy {e}: a diagnostic has an empty title at {}:{}", j.item.2, j.item.3)));
                 return out;
             }
+            // severity is fixed for a kind: within this scenario, and against what other runs of the
+            // batch saw (the driver compares runs through the `level:` counters and, on a conflict,
+            // hands the other run's severity in through `expected_levels`)
             let kind = super::kind_of_title(&j.item.1);
-            if let Ok(mut tab) = LEVEL_OF_KIND.lock() {
-                let prev = tab.entry(kind.clone()).or_insert_with(|| j.item.0.clone());
-                if *prev != j.item.0 {
-                    out.push(viol("severity-not-fixed", format!("severity-not-fixed:{kind}"), format!("kind `{kind}` seen with severity {prev} and {}", j.item.0)));
-                    return out;
-                }
+            stats.inc(&format!("level:{kind}={}", j.item.0));
+            let prev = table.entry(kind.clone()).or_insert_with(|| j.item.0.clone());
+            if *prev != j.item.0 {
+                out.push(viol("severity-not-fixed", format!("severity-not-fixed:{kind}"), format!("kind `{kind}` seen with severity {prev} and {}", j.item.0)));
+                return out;
             }
         }
         // sorted by position within each file
